@@ -171,6 +171,10 @@ def rules_selection(run):
                 v.args and q.unparse(v.args[0]) == key and key.endswith('.source')
             run.check(good, r, fi.short, 'depth cache holds depth_for(source) under key source',
                       'the cached depth must be the depth of the transition source it is stored under', n)
+            cname_ = q.unparse(n.targets[0].value)
+            about = [a for a in guard_atoms(n) if cname_ in (a[1], a[2])]
+            run.check(about in ([], [('not in', key, cname_)]), r, fi.short, 'the cache is filled whenever the key is missing',
+                      'the fill of the depth cache is conditional on %s: a source can be left without cached depth (KeyError when the groups are ordered)' % about, n)
 
     # ---- C01.3 pre-emption
     r = run.rule('C01.3', 'pre-emption: (a) a later event class is not examined once something is selected; (b) lower priority '
@@ -456,6 +460,13 @@ def rules_selection(run):
                                           isinstance(v, ast.Dict) and any(q.const_str(k) == 'event' for k in v.keys if k is not None)
                                           for st, v in q.assigned_value(M, ac.id)))
             run.check(okk, r, m.short, "the context with 'event' reaches _evaluate_code", 'event context not passed', c)
+            # the evaluation is the verdict: returned as it is, under no condition other than "the transition has a guard"
+            at = [a for a in guard_atoms(c)]
+            okg = all(a in (('truthy', ps[1] + '.guard', ''), ('is not', ps[1] + '.guard', 'None')) for a in at)
+            st_ = q.enclosing_stmt(c)
+            returned = isinstance(st_, ast.Return) and any(strip_cast(v_) is c for v_, at_ in q.cases(M, st_.value))
+            run.check(okg and returned, r, m.short, 'the value of the guard is the verdict',
+                      'the guard is evaluated under %s / its value is not returned as it is' % at, c)
 
 
 def rules_priority_values(run):
